@@ -1009,15 +1009,26 @@ class ServiceDiscover:
     def _notify_service_offered(
         self, service: someip.config.Service, source: _T_SOCKADDR
     ) -> None:
-        # iterate over snapshots: a listener may (un)register listeners from its callback
-        for service_filter, listeners in list(self.watched_services.items()):
-            if service_filter.matches_service(service):
-                for listener in list(listeners):
-                    if listener in listeners:
-                        listener.service_offered(service, source)
-        for listener in list(self.watcher_all_services):
-            if listener in self.watcher_all_services:
-                listener.service_offered(service, source)
+        # iterate over snapshots: a listener may (un)register listeners from its callback.
+        # the service is not recorded yet, so a listener registered from such a callback
+        # did not get it replayed: go round again until nobody new has turned up
+        done: typing.Set[typing.Tuple[typing.Any, int]] = set()
+        while True:
+            todo: typing.List[typing.Tuple[typing.Any, typing.Any, typing.Any]] = []
+            for service_filter, listeners in list(self.watched_services.items()):
+                if service_filter.matches_service(service):
+                    todo.extend((service_filter, listeners, x) for x in list(listeners))
+            todo.extend(
+                (None, self.watcher_all_services, x)
+                for x in list(self.watcher_all_services)
+            )
+            todo = [t for t in todo if (t[0], id(t[2])) not in done]
+            if not todo:
+                break
+            for key, listeners, listener in todo:
+                done.add((key, id(listener)))
+                if listener in listeners:
+                    listener.service_offered(service, source)
 
     def _notify_service_stopped(
         self, service: someip.config.Service, source: _T_SOCKADDR
